@@ -160,11 +160,18 @@ def binary_oracle(outcome, tier):
                     # does terminate): keep those shapes within a depth that runs in seconds
                     if fmt == "yaml" and sh in ("array", "map") and d > (3000 if name == "debug" else 30000):
                         continue
-                    for via in ("stdin", "file"):
+                    for via in ("stdin", "file", "detected stdin", "detected file"):
                         if via == "file":
                             fn = os.path.join(common.BUILD, "run", "deep." + fmt)
                             open(fn, "wb").write(data)
                             p = subprocess.run([path, "-t", "json", fn], stdout=subprocess.DEVNULL, stderr=subprocess.PIPE, timeout=300)
+                        elif via == "detected file":
+                            # no option and no telling extension: the trials of format detection meet the nesting first
+                            fn = os.path.join(common.BUILD, "run", "deep.dat")
+                            open(fn, "wb").write(data)
+                            p = subprocess.run([path, "-t", "json", fn], stdout=subprocess.DEVNULL, stderr=subprocess.PIPE, timeout=300)
+                        elif via == "detected stdin":
+                            p = subprocess.run([path, "-t", "json"], input=data, stdout=subprocess.DEVNULL, stderr=subprocess.PIPE, timeout=300)
                         else:
                             p = subprocess.run([path, "-f", fmt, "-t", "json"], input=data, stdout=subprocess.DEVNULL,
                                                stderr=subprocess.PIPE, timeout=300)
